@@ -272,6 +272,26 @@ def s_logic_nearbool(rng, nval):
     return _mk(prog, "logic_near_boolean", rng, nval, edges=edges)
 
 
+def s_commuted(rng, nval, op):
+    """`a OP b` next to `b OP a` (and `a OP k` next to `k OP a`) on one output type: shareable only for commutative OP."""
+    types = gen.Types(rng)
+    small = op in ("**", "<<", ">>")
+    lo, hi = (0, 6) if small else (-9, 12)
+    prog = [["input", "a", types.fresh(), rng.randint(lo, hi)], ["input", "b", types.fresh(), rng.randint(lo, hi)]]
+    t1 = types.fresh()
+    k = rng.randint(1, 5)
+    items = [["p", ["b", op, ["v", "a"], ["v", "b"]], t1], ["p", ["b", op, ["v", "b"], ["v", "a"]], t1],
+             ["p", ["b", op, ["v", "a"], ["n", k]], t1], ["p", ["b", op, ["n", k], ["v", "a"]], t1]]
+    if rng.random() < 0.5:
+        items.reverse()
+    for i, e in enumerate(items):
+        prog.append(["sig", "x%d" % i, e])
+    # also inside one expression: (a OP b) - (b OP a)
+    prog.append(["sig", "d", ["p", ["b", "-", ["b", op, ["v", "a"], ["v", "b"]], ["b", op, ["v", "b"], ["v", "a"]]], types.fresh()]])
+    rngs = list(range(lo, hi + 1))
+    return _mk(prog, "commuted_operands", rng, nval, edges={"a": rngs, "b": rngs}, small=True)
+
+
 def s_unary(rng, nval):
     types = gen.Types(rng)
     prog = [["input", "a", types.fresh(), gen.rand_value(rng, True)], ["input", "b", types.fresh(), gen.rand_value(rng, True)]]
@@ -365,6 +385,11 @@ def gen_cases(tier, seed):
         c = f(sub, nval)
         c["id"] = i
         cases.append(c)
+    for op in ["+", "-", "*", "/", "%", "**", "<<", ">>", "AND", "OR", "XOR"]:
+        for _rep in range(1 if tier == "quick" else 6):
+            c = s_commuted(random.Random(rng.randrange(1 << 60)), nval, op)
+            c["id"] = len(cases)
+            cases.append(c)
     return cases
 
 
